@@ -826,10 +826,10 @@ def evaluate(ctx, runs, colors, use_fuzzy=True):
         diff = [names[j] for j in range(min(len(ta), len(tb), 6)) if ta[j] != tb[j]] if len(ta) == len(tb) == 6 else ["shape"]
         detail = dict(mismatching_cases=len(bad), case=i, differs_in=diff, argv=r.argv, env=r.env_extra,
                       binary=[core.pretty(t) if j in (4, 5) else t for j, t in enumerate(ta)][:6], model=[core.pretty(t) if j in (4, 5) else t for j, t in enumerate(tb)][:6])
+        # a difference between model and binary is a broken tie, not by itself a violation of the property: the property is
+        # evaluated directly on the binary's own output above (hits); here only the correspondence is reported
+        detail["replay"] = replay_of(r, model_line=b, binary_line=a)
         ctx.oblige("correspondence:cli-model", "correspondence", False, detail)
-        if not ctx.hits:
-            ctx.hit("cli-model-differs-from-binary", "model and binary differ in %s for wtf %s" % (diff, " ".join(json.dumps(x) for x in r.argv)[:300]),
-                    replay_of(r, model_line=b, binary_line=a))
     else:
         ctx.oblige("correspondence:cli-model", "correspondence", True, "%d runs: stage, printed ids, format, escapes, history and result-block bytes agree with Wtf.Cli.cliSearch" % len(run.order))
     ctx.oblige("hypothesis:answers-sorted-and-bounded", "correspondence", n_hyp_bad == 0,
